@@ -169,7 +169,7 @@ func runC14(w *World) {
 			w.Violate("c14-malformed-stream", "client %d: byte stream from the server is not a concatenation of well-formed transactions: %v", c.Idx, c.FrameErr)
 			continue
 		}
-		if c.parsed < len(c.Raw) {
+		if c.parsed < len(c.Raw) && c.Idx < stable { // a client that hung up may of course hold a cut-off last transaction
 			w.Violate("c14-partial-frame-at-quiescence", "client %d: %d bytes after the last complete transaction never became a complete transaction (stream offset %d, header says total size %d)", c.Idx, len(c.Raw)-c.parsed, c.parsed, partialTotal(c.Raw[c.parsed:]))
 			continue
 		}
